@@ -59,11 +59,11 @@ GEN_VARS = {'A': 'bool', 'B': 'bool', 'C': 'bool', 'P': "'a => bool", 'Q': "'a =
 
 def shards(tier, seed):
     if tier == 'quick':
-        return ([{'kind': 'lib', 'i': i, 'parts': 11, 'frac': 0.1, 'branch': 0.5, 'export_p': 0.4, 'window': 30, 'budget': 320}
+        return ([{'kind': 'lib', 'i': i, 'parts': 11, 'frac': 0.1, 'branch': 0.5, 'export_p': 0.4, 'window': 30, 'budget': 320, 'unit': 100000}
                  for i in range(11)] +
                 [{'kind': 'gen', 'i': i, 'goals': 26, 'ops': 12} for i in range(4)] +
                 [{'kind': 'ide', 'i': 0, 'theorems': 14}])
-    return ([{'kind': 'lib', 'i': i, 'parts': 40, 'frac': 1.0, 'branch': 0.25} for i in range(40)] +
+    return ([{'kind': 'lib', 'i': i, 'parts': 44, 'frac': 1.0, 'branch': 0.25, 'unit': 700} for i in range(44)] +
             [{'kind': 'gen', 'i': i, 'goals': 220, 'ops': 16} for i in range(10)] +
             [{'kind': 'ide', 'i': i, 'theorems': 60} for i in range(2)])
 
@@ -238,12 +238,14 @@ class OpLog:
     """what the editing primitives did during the operation in progress (monitors on ProofState.remove_line /
     set_line; used only to name the root cause of a failure, never to decide one)"""
     removed = []          # (id tuple, rule, alpha shadow of the stated proposition or None)
+    tactic_calls = []     # (tactic, goal sequent, args, premises) of every ProofState.apply_tactic
     stale_trivial = False
     installed = False
 
     @classmethod
     def reset(cls):
         cls.removed = []
+        cls.tactic_calls = []
         cls.stale_trivial = False
 
 
@@ -272,9 +274,36 @@ def install_oplog():
         except Exception:
             pass
         return orig_set(self, id, rule, args=args, prevs=prevs, th=th)
+    orig_tac = ProofState.apply_tactic
+
+    def apply_tactic(self, id, tactic, args=None, prevs=None):
+        try:
+            from kernel.proofterm import ProofTerm
+            gid = ItemID(id)
+            th0 = self.get_proof_item(gid).th
+            pts = [ProofTerm.atom(ItemID(p), self.get_proof_item(ItemID(p)).th) for p in (prevs or [])]
+            OpLog.tactic_calls.append((tactic, th0, args, pts))
+        except Exception:
+            pass
+        return orig_tac(self, id, tactic, args=args, prevs=prevs)
     ProofState.remove_line = remove_line
     ProofState.set_line = set_line
+    ProofState.apply_tactic = apply_tactic
     OpLog.installed = True
+
+
+def tactic_concludes_other_statement():
+    """re-run the (pure) tactic of the operation on the goal it was given: does its proof term state another proposition?"""
+    for tactic, th0, args, pts in OpLog.tactic_calls:
+        try:
+            pt = tactic.get_proof_term(th0, args=args, prevs=pts)
+            if S.alpha(S.tm_shadow(pt.th.prop)) != S.alpha(S.tm_shadow(th0.prop)):
+                return True
+        except (KeyboardInterrupt, SystemExit):
+            raise
+        except BaseException:
+            pass
+    return False
 
 
 def recheck_mechanism(sess, new, op, M):
@@ -301,9 +330,11 @@ def recheck_mechanism(sess, new, op, M):
         for _, it in flat_lines(new):
             if it.th is not None and ((it.rule == 'assume' and len(it.th.hyps) > 1) or (it.rule == 'variable' and len(it.th.hyps) > 0)):
                 return 'recheck-fails-after-edit:exists_elim-adds-its-hypothesis-to-later-assume-or-variable-lines'
+    if tactic_concludes_other_statement():
+        return 'recheck-fails-after-edit:tactic-concludes-a-statement-other-than-the-goal'
     if failing_rule == name and failing_id == step.get('goal_id'):
         return 'recheck-fails-after-edit:macro-method-on-a-goal-its-macro-does-not-prove:' + name
-    if failing_id is not None:
+    if failing_id is not None and name in ('rewrite_goal_with_prev', 'rewrite_goal', 'apply_tactic(rewrite_goal_with_prev)'):
         by = {str(it.id): it for _, it in flat_lines(new)}
         L = by.get(failing_id)
         if L is not None and L.th is not None:
@@ -526,7 +557,15 @@ def judge(sess, new, op, M):
     last = new.prf.items[-1] if new.prf.items else None
     last_key = seq_key(thm_sh(last.th, M)) if last is not None else None
     if last_key != sess.goal:
-        sess.violation('goal-changed:' + name, 'last line (%s) states %s, the goal was %s' % (
+        gmech = 'goal-changed:' + name
+        if op['op'] == 'method':
+            try:
+                tgt = sess.cur.get_proof_item(op['step']['goal_id'])
+                if tgt.rule != 'sorry':
+                    gmech = 'goal-changed:method-aimed-at-a-line-that-is-not-a-gap'
+            except Exception:
+                pass
+        sess.violation(gmech, 'last line (%s) states %s, the goal was %s' % (
             last.rule if last is not None else None, sstr(last.th) if last is not None else None, sess.origin.get('prop')), op)
     if sess.tainted:
         ctx.count('ops_on_history_whose_recheck_already_failed')
@@ -593,8 +632,6 @@ def judge(sess, new, op, M):
         sess.violation(mech, desc, op)
         context.set_context(None, vars=sess.vars)
         return
-    finally:
-        pass
     context.set_context(None, vars=sess.vars)
     ctx.count('reimports_compared')
     M2 = Memo()
@@ -704,6 +741,25 @@ def term_round_trip_failure(state, item):
 C07_MECH = 'export-import-differs:a-term-of-the-line-does-not-survive-print-parse(see C07)'
 
 
+def leaked_declaration(state, item, M):
+    """does the line mention a variable whose name was declared, at another type, by a `variable` line of an EARLIER block
+    that is already closed (not visible from the line)?  server.parse_proof keeps such declarations in force"""
+    lines = flat_lines(state)
+    pos = item.id.id
+    mine = {}
+    for t in item_terms(item):
+        for at in S.atoms(M.term(t), ('var',)):
+            mine.setdefault(at[1], set()).add(at[2])
+    for p, it in lines:
+        if p == pos:
+            break
+        if it.rule == 'variable' and not dep_ok(pos, p):
+            nm, T = it.args
+            if nm in mine and M.type(T) not in mine[nm]:
+                return True
+    return False
+
+
 def classify_import_failure(sess, new, exp, e, M):
     """mechanism key for a re-import that raised: which stage, which line, and known root causes"""
     from logic import context
@@ -729,6 +785,8 @@ def classify_import_failure(sess, new, exp, e, M):
             rt = None
             if clash:
                 mech = 'export-import-differs:one-name-for-variables-of-two-types'
+            elif it is not None and leaked_declaration(new, it, M):
+                mech = 'export-import-differs:parse_proof-leaks-variable-declarations-of-closed-blocks'
             else:
                 rt = term_round_trip_failure(new, it) if it is not None else None
                 mech = C07_MECH if rt else 'export-import-differs:line-unparsable:%s:%s' % (field, exc_name(e2))
@@ -825,7 +883,9 @@ def ids(pos):
 
 
 def facts_for(state, gpos):
-    return [(pos, it) for pos, it in flat_lines(state) if dep_ok(gpos, pos) and it.th is not None and it.rule not in ('', 'variable')]
+    # lines stating a schematic library theorem (only the raw set_line of this harness makes them) are not offered as facts
+    return [(pos, it) for pos, it in flat_lines(state)
+            if dep_ok(gpos, pos) and it.th is not None and it.rule not in ('', 'variable', 'theorem')]
 
 
 def closed_subterms(sh, acc, limit=60):
@@ -1297,17 +1357,38 @@ def vars_jsonable(vars_):
     return out
 
 
+def lib_units(parts, unit):
+    """(theory, part, of) work units - a big theory is split by theorem index - packed greedily into `parts` bins"""
+    units = []
+    for n in libreplay.theory_names():
+        w = libreplay.theory_weight(n)
+        of = max(1, -(-w // unit))
+        for j in range(of):
+            units.append((w / of + 40, n, j, of))      # + a constant for loading the theory
+    units.sort(key=lambda u: (-u[0], u[1], u[2]))
+    bins = [[] for _ in range(parts)]
+    load = [0.0] * parts
+    for w, n, j, of in units:
+        k = load.index(min(load))
+        bins[k].append((n, j, of))
+        load[k] += w
+    return bins
+
+
 def run_lib(ctx, spec):
     libreplay.prepare()
     install_tracker()
     rng = ctx.rng
-    bins = libreplay.partition(spec['parts'])
     budget0 = 0
-    names = list(bins[spec['i']])
-    rng.shuffle(names)
-    for name in names:
+    units = list(lib_units(spec['parts'], spec.get('unit', 1500))[spec['i']])
+    rng.shuffle(units)
+    for name, part, of in units:
         try:
-            for item in libreplay.iter_theorems(name, rng, spec['frac'], want_proof=False):
+            for idx, item in enumerate(libreplay.iter_theorems(name, None, 1.0, want_proof=False)):
+                if idx % of != part:
+                    continue
+                if spec['frac'] < 1.0 and rng.random() >= spec['frac']:
+                    continue
                 if spec.get('budget') and ctx.counters['ops_accepted'] - budget0 >= spec['budget']:
                     ctx.count('lib_theorems_skipped_after_budget')
                     continue
